@@ -61,6 +61,10 @@ class FakeCluster(object):
         self._prepared_statements = {}
         self._default_load_balancing_policy = Pol(-5)
 
+        class Meta(object):
+            dbaas = False
+        self.metadata = Meta()
+
 
 def ks(i):
     return None if i is None else 'ks%d' % i
@@ -84,16 +88,22 @@ def build(case):
     cluster.default_retry_policy = Pol(se['retry'])
     cluster.load_balancing_policy = Pol(se['lbp'])
     cluster.timestamp_generator = lambda: se['ts']
-    profile = cl.ExecutionProfile(load_balancing_policy=Pol(pr['lbp']), retry_policy=Pol(pr['retry']), consistency_level=pr['cl'],
+    # the profile's level is given to ExecutionProfile only when the user chose one; the session's legacy default is
+    # assigned through the real property after connect(); in between runs what Cluster.connect() runs for DBaaS clusters
+    pkw = {}
+    if case.get('profile_cl_chosen', True):
+        pkw['consistency_level'] = pr['cl']
+    profile = cl.ExecutionProfile(load_balancing_policy=Pol(pr['lbp']), retry_policy=Pol(pr['retry']),
                                   serial_consistency_level=pr['serial'], request_timeout=pr['timeout'], row_factory=RowF(pr['rowf']),
-                                  speculative_execution_policy=Pol(pr['spec']))
+                                  speculative_execution_policy=Pol(pr['spec']), **pkw)
+    cluster.metadata.dbaas = bool(case.get('dbaas', False))
     cluster.profile_manager.profiles[cl.EXEC_PROFILE_DEFAULT] = profile
     cluster.profile_manager.profiles['named'] = profile
     s = object.__new__(cl.Session)
     s.cluster = cluster
     s._row_factory = RowF(se['rowf'])
     s._default_timeout = se['timeout']
-    s._default_consistency_level = se['cl']
+    s._default_consistency_level = cl.Session._default_consistency_level
     s._default_serial_consistency_level = se['serial']
     s.default_fetch_size = se['fetch']
     s._protocol_version = case['pv']
@@ -103,6 +113,15 @@ def build(case):
     s.keyspace = ks(se['keyspace'])
     s._pools = {}
     s._monitor_reporter = None
+    cl.Cluster._set_default_dbaas_consistency(cluster, s)          # as Cluster.connect() does
+    if case.get('session_cl_chosen', True):
+        if case['mode'] == 'Legacy':
+            s.default_consistency_level = se['cl']                  # the user's assignment (real property setter)
+        else:
+            s._default_consistency_level = se['cl']                 # unused in profile mode
+    if case.get('added_later') and case['mode'] == 'Profiles':     # (legacy mode has no add_execution_profile)
+        # Cluster.add_execution_profile() runs the same adjustment again for every session
+        cl.Cluster._set_default_dbaas_consistency(cluster, s)
 
     def stmt_kwargs(o):
         kw = {}
@@ -274,8 +293,11 @@ def g_case(case, res):
         st = '(bound_of %s %s %s)' % (g_stmt(case['prepared']), g_stmt(expl), oz(case['meta_keyspace']))
     else:
         st = g_stmt(case['stmt'])
-    prof = '(mkProf %d %s %d %s %d %d %d)' % (pr['cl'], oz(pr['serial']), pr['retry'], oz(tz(pr['timeout'])), pr['rowf'], pr['lbp'], pr['spec'])
-    sess = '(mkSess %d %s %d %s %d %d %s %s %d %s)' % (se['cl'], oz(se['serial']), se['retry'], oz(tz(se['timeout'])), se['rowf'], se['lbp'],
+    db = 'true' if case.get('dbaas') else 'false'
+    pcl = '(configured_cl %s %s)' % (db, oz(pr['cl']) if case.get('profile_cl_chosen', True) else 'None')
+    scl = '(configured_cl %s %s)' % (db, oz(se['cl']) if case.get('session_cl_chosen', True) else 'None')
+    prof = '(mkProf %s %s %d %s %d %d %d)' % (pcl, oz(pr['serial']), pr['retry'], oz(tz(pr['timeout'])), pr['rowf'], pr['lbp'], pr['spec'])
+    sess = '(mkSess %s %s %d %s %d %d %s %s %d %s)' % (scl, oz(se['serial']), se['retry'], oz(tz(se['timeout'])), se['rowf'], se['lbp'],
                                                       oz(se['fetch']), 'true' if se['use_ts'] else 'false', se['ts'], oz(se['keyspace']))
     t = 'TNotSet' if case['timeout'] == NOT_SET else '(TSet %s)' % oz(tz(case['timeout']))
     if isinstance(res, tuple):
